@@ -237,6 +237,34 @@ class Lib:
             if e.feasible(rest):
                 out.append((rest, Exc("AttributeError", f"{base.t[1]}.{attr}", getattr(node, "lineno", 0))))
             return out
+        # a class-level constant defined in the source (possibly differently in the subclasses): looked up on the object's own class
+        static = base.t[1]
+        per = {}
+        for c in sorted(set(e.subclasses_of(static)) | {static}):
+            try:
+                v = e.src.class_const(c, attr)
+            except (KeyError, Exception):
+                per = None
+                break
+            if isinstance(v, (bool, int, float, str)):
+                per[c] = v
+            else:
+                per = None
+                break
+        if per:
+            self.use(f"class constant {attr} read from the class body in the source (per concrete class)")
+            vals = sorted(set(per.values()), key=repr)
+            if len(vals) == 1:
+                return [(st, e.const_val(vals[0]))]
+            outs = []
+            for c, v in sorted(per.items()):
+                cond = e.dtype_fn(base.z) == e.class_id(c)
+                if e.feasible(st, cond):
+                    s2 = st.fork()
+                    s2.assume(cond)
+                    outs.append((s2, e.const_val(v)))
+            if outs:
+                return outs
         raise Unsupported(f"attribute {base.t[1]}.{attr} is not declared in the class model", node, e.path)
 
     def class_attr(self, cname, attr, st, node):
